@@ -117,7 +117,8 @@ def spdx_identifier(text: str) -> Expression:
     """Factory for creating SPDX expressions."""
     try:
         return _LICENSING.parse(text)
-    except (ExpressionError, ParseError) as error:
+    # (IndexError: the parser stumbles over some malformed expressions.)
+    except (ExpressionError, ParseError, IndexError) as error:
         raise click.UsageError(
             _("'{}' is not a valid SPDX expression.").format(text)
         ) from error
